@@ -743,6 +743,18 @@ class Series:
     def count(self):
         return len(self._nn())
 
+    def last_valid_index(self):
+        for lab, v in reversed(list(zip(self.index, self._v))):
+            if not _isnanv(v):
+                return lab
+        return None
+
+    def first_valid_index(self):
+        for lab, v in zip(self.index, self._v):
+            if not _isnanv(v):
+                return lab
+        return None
+
     def mean(self):
         return mnp._mean(self._nn())
 
